@@ -7,6 +7,7 @@ import (
 	"net/http"
 	"net/url"
 	"os"
+	"runtime"
 	"sort"
 	"strings"
 	"sync"
@@ -432,7 +433,19 @@ func runHubCaseRaw(c *h.Ctx, r *h.Report, o *gen.Oracle, cs hubCase, uuidGen *co
 	for k := range sidOf {
 		delete(sidOf, k)
 	}
-	synctest.Run(func() {
+	stuck := ""
+	defer func() {
+		if stuck == "" {
+			return
+		}
+		// goroutines of the hub are blocked for ever although every client is gone and the hub was stopped:
+		// a handler waiting on a channel nobody will feed, a Close waiting for it, …
+		rp := map[string]any{"family": "hub", "case": cs}
+		for _, k := range []string{"C13:hub-goroutine-blocked-forever", "C14:hub-goroutine-blocked-forever", "C15:hub-goroutine-blocked-forever"} {
+			r.Violate(h.Violation{Key: k, What: "after this history, with every client gone and the hub stopped, goroutines of the hub remain blocked for ever (" + stuck + ")", Replay: rp})
+		}
+	}()
+	bubble := func() {
 		hr := &hubRun{cs: cs, dir: dir}
 		hr.reg = prometheus.NewRegistry()
 		hr.metrics = mercure.NewPrometheusMetrics(hr.reg)
@@ -469,7 +482,11 @@ func runHubCaseRaw(c *h.Ctx, r *h.Report, o *gen.Oracle, cs hubCase, uuidGen *co
 				impl = append(impl, "")
 			}
 		}
+		unmodelled := false // set by the "corrupt" op: what follows is judged by the oracles only
 		emit := func(line, got string) {
+			if unmodelled {
+				return
+			}
 			lines = append(lines, line)
 			impl = append(impl, got)
 		}
@@ -558,7 +575,7 @@ func runHubCaseRaw(c *h.Ctx, r *h.Report, o *gen.Oracle, cs hubCase, uuidGen *co
 				} else {
 					if v, ok := lc.w.Header()["Last-Event-Id"]; ok {
 						leid = h.Hex(v[0])
-						if _, isBolt := hr.f.tr.(*mercure.BoltTransport); isBolt && len(op.Topics) == 1 && op.Topics[0] == "*" && cs.AllPublic {
+						if _, isBolt := hr.f.tr.(*mercure.BoltTransport); isBolt && len(op.Topics) == 1 && (op.Topics[0] == "*" || cs.ExpectAll) && cs.AllPublic && !(cs.ExpectAll && cs.Cfg.Subscriptions) {
 							req := op.LeidH
 							if req == "" {
 								req = op.LeidQ
@@ -624,6 +641,11 @@ func runHubCaseRaw(c *h.Ctx, r *h.Report, o *gen.Oracle, cs hubCase, uuidGen *co
 					}
 				}
 				emit(h.Line("hub.failnext", h.Itoa(op.Label)), "ok")
+			case "corrupt":
+				if bt, ok := hr.f.tr.(*mercure.BoltTransport); ok && !hr.stopped {
+					mercure.VerifBoltCorruptLast(bt)
+					unmodelled = true
+				}
 			case "close":
 				hr.stopped = true
 				hr.stop()
@@ -698,12 +720,50 @@ func runHubCaseRaw(c *h.Ctx, r *h.Report, o *gen.Oracle, cs hubCase, uuidGen *co
 			lc.cancel()
 		}
 		hr.wait()
+		// every client is gone (context cancelled, writes fail): a handler that has still not returned never will
+		hung := false
+		for _, lc := range hr.conns {
+			if !lc.done.Load() {
+				hung = true
+			}
+		}
+		if hung {
+			// stopping the hub now could wait for that handler for ever (a bbolt read transaction it holds): leave
+			// the bubble; synctest reports the blocked goroutines and the case is filed as a violation
+			return
+		}
 		hr.stop()
 		hr.wait()
 		for _, p := range hr.panics {
 			violations = append(violations, h.Violation{Key: "C14:panic:" + p, What: "panic in a sequential history: " + p, Replay: map[string]any{"family": "hub", "case": cs}})
 		}
-	})
+	}
+	func() {
+		defer func() {
+			if p := recover(); p != nil {
+				msg := fmt.Sprint(p)
+				if !strings.Contains(msg, "deadlock") {
+					panic(p)
+				}
+				buf := make([]byte, 1<<16)
+				buf = buf[:runtime.Stack(buf, true)]
+				where := ""
+				for _, blk := range strings.Split(string(buf), "\n\n") {
+					if strings.Contains(blk, "synctest") && strings.Contains(blk, "dunglas/mercure.") {
+						ls := strings.Split(blk, "\n")
+						for _, l := range ls {
+							if strings.HasPrefix(l, "github.com/dunglas/mercure.") {
+								where += strings.SplitN(l, "(", 2)[0] + " <- "
+							}
+						}
+						where += "; "
+					}
+				}
+				stuck = msg + ": " + where
+			}
+		}()
+		synctest.Run(bubble)
+	}()
 	ans := c.Driver.Ask(lines)
 	for i := range lines {
 		if impl[i] == "" {
